@@ -20,6 +20,17 @@ func main() {
 		cmdCheck(os.Args[2:])
 	case "replay":
 		cmdReplay(os.Args[2:])
+	case "build":
+		// verifsim build <property> <dir>: build the property's worker into <dir> (debugging aid)
+		if len(os.Args) != 4 {
+			usage()
+		}
+		cfg, ok := props[os.Args[2]]
+		if !ok {
+			usage()
+		}
+		bin, _ := buildWorker(os.Args[3], cfg.Variant)
+		fmt.Println(bin)
 	case "selftest":
 		cmdSelftest(os.Args[2:])
 	default:
@@ -28,6 +39,6 @@ func main() {
 }
 
 func usage() {
-	fmt.Fprintln(os.Stderr, "usage: verifsim rewrite|check|replay|selftest ...")
+	fmt.Fprintln(os.Stderr, "usage: verifsim rewrite|check|replay|selftest|build ...")
 	os.Exit(2)
 }
